@@ -368,7 +368,10 @@ type ShardSpec struct {
 	Engine string `json:"engine,omitempty"`
 	// Wrap is put in front of the test binary (e.g. taskset -c 0 to make the process see one CPU).
 	Wrap []string `json:"wrap,omitempty"`
-	Fuzz bool     `json:"fuzz,omitempty"` // a native `go test -fuzz` campaign (driver runs `go test`)
+	// AsNobody: the shard process runs as uid/gid 65534 (when the driver is root and setpriv exists;
+	// otherwise the shard is left out with a note): permission errors are invisible to root.
+	AsNobody bool `json:"as_nobody,omitempty"`
+	Fuzz     bool `json:"fuzz,omitempty"` // a native `go test -fuzz` campaign (driver runs `go test`)
 }
 
 // Plan is what an engine answers when asked how to check a property in a tier.
